@@ -126,6 +126,7 @@ namespace pika::split_tuple_detail {
             void set_stopped() && noexcept
             {
                 auto r = std::move(*this);
+                r.state.v.template emplace<pika::execution::detail::stopped_type>();
                 r.state.set_predecessor_done();
             };
 
